@@ -305,7 +305,10 @@ install()
 _ix = STATUSES.index
 PATHS = [["pending", "running", "retry", "pending"],
          ["pending", "rerouted", "pending"],
-         ["pending", "running", "killed", "rerouted", "pending"]]
+         ["pending", "running", "killed", "rerouted", "pending"],
+         # from PENDING owned by r1 (paths 3, 4): recovery takes the invocation away from r1 and r2 claims it, while r1's own request is in flight
+         ["pending_recovery", "rerouted", "pending"],
+         ["pending_recovery", "rerouted", "pending", "running"]]
 
 def _seq_gen(orch, iid, reqs, outs):
     for (new, rid) in reqs:
@@ -331,6 +334,8 @@ def reclaim(kind, path, na, ra, first, slices):
     global LAST_DETAIL
     app, iid = fresh(kind)
     orch = app.orchestrator
+    if path >= 3:
+        orch.set_invocation_status(iid, S[_ix("pending")], runner_ctx("r1"))
     rec0 = orch.get_invocation_status_record(iid)
     seq_a = [(na, RID[ra])]
     seq_b = [(_ix(x), "r2") for x in PATHS[path]]
@@ -438,14 +443,16 @@ def run(ctx: Ctx) -> None:
     nalo, nahi = (0, 13) if thorough else (P, P)
     rsrc = base + RECLAIM
     rconds = []
+    R = 6   # running
     for kind in (0, 1):
-        for path in range(3):
-            rsrc += RECLAIMF.replace("__KIND__", str(kind)).replace("__PATH__", str(path)).replace("RKMAX", str(rk)).replace("NALO", str(nalo)).replace("NAHI", str(nahi))
+        for path in range(5):
+            lo, hi = (nalo, nahi) if path < 3 or thorough else (R, R)       # quick, taken-away paths: the owner's in-flight request is its start (-> RUNNING)
+            rsrc += RECLAIMF.replace("__KIND__", str(kind)).replace("__PATH__", str(path)).replace("RKMAX", str(rk)).replace("NALO", str(lo)).replace("NAHI", str(hi))
             rconds.append(Cond(f"reclaim_{kind}_{path}", "confirm", 2400, keyfn=_key_from_replay))
     ctx.ch_batch("c02reclaim", rsrc, rconds)
     csrc = base + RECLAIM + RECLAIM_CANARY + RECLAIMF.replace("__KIND__", "0").replace("__PATH__", "0").replace("RKMAX", str(rk)).replace("NALO", str(P)).replace("NAHI", str(P))
     ctx.ch_batch("c02reclaim_canary", csrc, [Cond("reclaim_0_0", "refute", 900)])
-    ctx.bounds["reclaim"] = (f"actor A: {'any one request (14 statuses' if thorough else 'a claim (-> PENDING'}, by r1 or r2); actor B (r2): claim, release through RETRY / REROUTED / KILLED+REROUTED, claim again; "
+    ctx.bounds["reclaim"] = (f"actor A: {'any one request (14 statuses' if thorough else 'a claim (-> PENDING'}, by r1 or r2); actor B (r2): claim, release through RETRY / REROUTED / KILLED+REROUTED, claim again - or, from PENDING owned by r1, recovery + re-claim by r2 against r1's in-flight start; "
                              f"first actor, 2 preemptions with slices 0..{rk}; both backends; oracle = linearisability against the status table")
     ctx.bounds["body"] = "two workers holding the same invocation object (one the legitimate owner, one stale) run the real DistributedInvocation.run twins, 1 preemption (thorough: 2) with slices 0..60, both backends: the body executes at most once"
     ctx.bounds["pollers"] = (f"2 pollers running the real get_invocations_to_run(1) twins; queue holds 1-3 copies of one id, optionally a second id, "
